@@ -28,15 +28,18 @@ def configs(tier):
     """(name, cc, opt, variant, level)"""
     if tier == 'quick':
         # covering subset: every compile-time variant, both compilers, every -O level at least once
+        # (clang -O2/-O3 needs 25-50 s to compile the SIMD variants under ASan, gcc 7-12 s: the quick tier
+        # therefore uses clang for the non-SIMD and -O0 builds; the thorough tier has all combinations)
         return [('gcc-O2-native', 'gcc', '-O2', 'native', 0),
                 ('clang-O3-nosimd', 'clang', '-O3', 'nosimd', 0),
                 ('gcc-O0-smalltab', 'gcc', '-O0', 'smalltab', 0),
-                ('clang-O2-sse41', 'clang', '-O2', 'sse41', 0),
-                ('gcc-O3-avx', 'gcc', '-O3', 'avx', 0),
+                ('gcc-O3-sse41', 'gcc', '-O3', 'sse41', 0),
+                ('gcc-O2-avx', 'gcc', '-O2', 'avx', 0),
                 ('clang-O0-shani', 'clang', '-O0', 'shani', 0),
                 ('gcc-O2-avx2', 'gcc', '-O2', 'avx2', 0),
-                ('clang-O2-sse2', 'clang', '-O2', 'sse2', 0),
-                ('gcc-O2-ssse3', 'gcc', '-O2', 'ssse3', 0)]
+                ('clang-O0-sse2', 'clang', '-O0', 'sse2', 0),
+                ('clang-O2-smalltab', 'clang', '-O2', 'smalltab', 0),
+                ('gcc-O2-ssse3', 'gcc', '-O2', 'ssse3', 0)]     # does not compile with gcc (reported as skipped)
     out = [('gcc-O2-native', 'gcc', '-O2', 'native', 2),          # full cube: all alignments 0..63
            ('clang-O2-native', 'clang', '-O2', 'native', 1)]
     for cc in ('gcc', 'clang'):
